@@ -17,7 +17,13 @@ def kv (toks : List String) (k : String) : String :=
 def step (c impl : String) : String :=
   match fields c with
   | "c19" :: kind :: _seed :: _ =>
-    if impl.startsWith "PANIC" then
+    if kind = "f26" && !(impl.startsWith "PANIC") && kv (fields impl) "codes" ≠ "WriteAuthorizationModel:2056" then
+      specViol s!"crafted F26 input (type restriction with an empty relation / wildcard oneof): expected the validation error 2056, got {kv (fields impl) "codes"}"
+    else if kind = "f26" && !(impl.startsWith "PANIC") then ok "f26-empty-oneof-rejected-as-invalid-model"
+    else if kind = "f27" && kv (fields impl) "codes" = "ListStores:2007,ReadAuthorizationModels:2007" then ok "f27-bogus-token-rejected-as-invalid-token"
+    else if kind = "f27" && (kv (fields impl) "internal") = "" && !(impl.startsWith "PANIC") then
+      specViol s!"crafted F27 input (bogus base64 continuation token): expected invalid_continuation_token 2007 twice, got {kv (fields impl) "codes"}"
+    else if impl.startsWith "PANIC" then
       specViol s!"panic in the request goroutine of a {kind} request: {(impl.drop 6).toString}"
     else if impl.startsWith "bad" || impl.startsWith "skipped" then "SKIP " ++ impl
     else
